@@ -1872,8 +1872,14 @@ func patchCode(context *funcContext) { // {{{
 			distance := 0
 			count := 0 // avoiding infinite loops
 			for jmp := inst; opGetOpCode(jmp) == OP_JMP && count < 5; jmp = context.Code.At(pc + distance + 1) {
-				d := context.GetLabelPc(opGetArgSbx(jmp)) - pc
-				if d > opMaxArgSbx {
+				var d int
+				if jpc := pc + distance + 1; count > 0 && jpc < pc {
+					// this jump has been patched already: its sBx is a distance, not a label
+					d = jpc + opGetArgSbx(jmp) - pc
+				} else {
+					d = context.GetLabelPc(opGetArgSbx(jmp)) - pc
+				}
+				if d > opMaxArgSbx || d < -opMaxArgSbx {
 					if distance == 0 {
 						raiseCompileError(context, context.Proto.LineDefined, "too long to jump.")
 					}
@@ -1882,9 +1888,10 @@ func patchCode(context *funcContext) { // {{{
 				distance = d
 				count++
 			}
-			if distance == 0 {
+			if distance == 0 && !(pc > 0 && opGetOpCode(code[pc-1]) == OP_TFORLOOP) {
 				context.Code.SetOpCode(pc, OP_NOP)
 			} else {
+				// OP_TFORLOOP reads the sBx of the jump that follows it: that one must stay a jump
 				context.Code.SetSbx(pc, distance)
 			}
 		}
